@@ -10,7 +10,8 @@ use std::panic::{catch_unwind, AssertUnwindSafe};
 pub fn run_stream(ctx: &mut Ctx, name: &str) {
 	match name {
 		"compact" => compact_stream(ctx),
-		"enc" | "rt" | "mut" | "rand" | "exh" | "cut" | "decall" => catalogue::run_all(ctx, name),
+		"enc" | "rt" | "mut" | "rand" | "exh" | "cut" | "decall" | "skip" => catalogue::run_all(ctx, name),
+		"len" => len_stream(ctx),
 		"concat" => {
 			catalogue::run_all(ctx, "pool");
 			concat_stream(ctx);
@@ -531,6 +532,55 @@ pub fn run_type<T: Cat + DecodeAll + DecodeLimit>(ctx: &mut Ctx, stream: &str, n
 				}
 			}
 		},
+		"skip" => {
+			let fixed = match T::encoded_fixed_size() {
+				Some(n) => format!("some {}", n),
+				None => "none".into(),
+			};
+			ctx.emit("fixed", name, &format!("fixed {}", T::ty(4)), &fixed);
+			for i in 0..n_vals {
+				g.budget = o.budget;
+				let v = T::gen(&mut g);
+				g.budget = o.budget;
+				let w = T::gen(&mut g);
+				let mut bs = v.encode();
+				// oracle (C13/C18): a reported fixed size is the size of every value
+				if let Some(n) = T::encoded_fixed_size() {
+					if bs.len() != n {
+						ctx.oracle_fail("C18", format!("{}: encoded_fixed_size() = {} but a value encodes to {} bytes", name, n, bs.len()));
+					}
+				}
+				match i % 4 {
+					0 => bs.push(g.rng.below(256) as u8),
+					1 => bs = mutate(&mut g.rng, &bs, &w.encode(), !o.zero_width_elems),
+					2 => {
+						let cut = g.rng.below(bs.len() as u64 + 1) as usize;
+						bs.truncate(cut)
+					},
+					_ => {},
+				}
+				let (dans, dv) = dec_answer::<T>(&bs);
+				let r = catch_unwind(AssertUnwindSafe(|| {
+					let mut s = &bs[..];
+					let r = T::skip(&mut s);
+					(r, s.len())
+				}));
+				let ans = match r {
+					Ok((Ok(()), rem)) => format!("ok {}", rem),
+					Ok((Err(_), _)) => "err".into(),
+					Err(_) => "panic".into(),
+				};
+				ctx.emit("skip", name, &format!("skip {} {}", T::ty(bs.len() + 1), hex_or_dash(&bs)), &ans);
+				// oracle (C18): skip advances exactly as far as decode and fails exactly when it fails
+				let expect = match &dv {
+					Some((_, rem)) => format!("ok {}", rem),
+					None => dans.clone(),
+				};
+				if ans != expect {
+					ctx.oracle_fail("C18", format!("{}: skip({}) = {} but decode gives {}", name, hex_or_dash(&bs), ans, &dans[..dans.len().min(60)]));
+				}
+			}
+		},
 		"exh" => {
 			let mut strings: Vec<Vec<u8>> = vec![vec![]];
 			for a in 0..=255u8 {
@@ -705,4 +755,55 @@ fn utf8_stream(ctx: &mut Ctx) {
 		}
 		utf8_case(ctx, &s);
 	}
+}
+
+// ---------------------------------------------------------------------------------------------
+// DecodeLength (C18)
+// ---------------------------------------------------------------------------------------------
+
+fn len_for<C: Cat + parity_scale_codec::DecodeLength>(ctx: &mut Ctx, name: &str, true_len: fn(&C) -> usize) {
+	let n = if ctx.tier_thorough { 600 } else { 60 };
+	let mut g = G::new(ctx.seed ^ 0x1E4 ^ name.len() as u64, 80);
+	for i in 0..n {
+		g.budget = if i % 10 == 0 { 20000 } else { 80 };
+		let v = C::gen(&mut g);
+		let mut bs = v.encode();
+		for _ in 0..g.rng.below(3) {
+			bs.push(g.rng.below(256) as u8);
+		}
+		let ans = match catch_unwind(AssertUnwindSafe(|| C::len(&bs))) {
+			Ok(Ok(n)) => format!("ok {}", n),
+			Ok(Err(_)) => "err".into(),
+			Err(_) => "panic".into(),
+		};
+		ctx.emit("len", name, &format!("len {}", hex_or_dash(&bs)), &ans);
+		if ans != format!("ok {}", true_len(&v)) {
+			ctx.oracle_fail("C18", format!("{}: len() = {} but the collection has {} elements", name, ans, true_len(&v)));
+		}
+		// on damaged input len() must agree with the model too
+		let m = mutate(&mut g.rng, &bs, &bs, true);
+		let ans = match catch_unwind(AssertUnwindSafe(|| C::len(&m))) {
+			Ok(Ok(n)) => format!("ok {}", n),
+			Ok(Err(_)) => "err".into(),
+			Err(_) => "panic".into(),
+		};
+		ctx.emit("len-mut", name, &format!("len {}", hex_or_dash(&m)), &ans);
+	}
+}
+
+fn len_stream(ctx: &mut Ctx) {
+	use std::collections::{BTreeMap, BTreeSet, BinaryHeap, LinkedList, VecDeque};
+	len_for::<Vec<u8>>(ctx, "Vec<u8>", |v| v.len());
+	len_for::<Vec<u32>>(ctx, "Vec<u32>", |v| v.len());
+	len_for::<Vec<String>>(ctx, "Vec<String>", |v| v.len());
+	len_for::<Vec<()>>(ctx, "Vec<()>", |v| v.len());
+	len_for::<VecDeque<u16>>(ctx, "VecDeque<u16>", |v| v.len());
+	len_for::<LinkedList<u8>>(ctx, "LinkedList<u8>", |v| v.len());
+	len_for::<BinaryHeap<u32>>(ctx, "BinaryHeap<u32>", |v| v.len());
+	len_for::<BTreeSet<u32>>(ctx, "BTreeSet<u32>", |v| v.len());
+	len_for::<BTreeMap<u16, Vec<u8>>>(ctx, "BTreeMap<u16,Vec<u8>>", |v| v.len());
+	len_for::<(Vec<u8>,)>(ctx, "(Vec<u8>,)", |v| v.0.len());
+	len_for::<(Vec<u16>, u32)>(ctx, "(Vec<u16>,u32)", |v| v.0.len());
+	len_for::<(BTreeSet<u8>, String, u8)>(ctx, "(BTreeSet<u8>,String,u8)", |v| v.0.len());
+	len_for::<(VecDeque<u8>, Vec<u8>, u8, u8)>(ctx, "(VecDeque<u8>,Vec<u8>,u8,u8)", |v| v.0.len());
 }
